@@ -4,6 +4,8 @@ From HV Require Import Base.BSet Gen.Tables Text.TypeOrder Topo.Dump Topo.WFChec
 Import ListNotations.
 Local Open Scope N_scope.
 
+(* ---------------- flag words ---------------- *)
+
 (* the 32 flag words over the five restrict flags: valid iff not (BYNODESET and
    REMOVE_CPULESS) and not (REMOVE_MEMLESS without BYNODESET) *)
 Lemma flags_valid_32 :
@@ -12,3 +14,619 @@ Lemma flags_valid_32 :
                        negb (negb (hasf f HWLOC_RESTRICT_FLAG_BYNODESET) && hasf f HWLOC_RESTRICT_FLAG_REMOVE_MEMLESS)))
           (map N.of_nat (seq 0 32)) = true.
 Proof. vm_compute. reflexivity. Qed.
+
+(* any bit outside the five flags makes the word invalid *)
+Lemma flags_valid_unknown_bit f : N.ldiff f RESTRICT_ALL <> 0 -> flags_valid f = false.
+Proof.
+  intros H. unfold flags_valid. apply N.eqb_neq in H. rewrite H. reflexivity.
+Qed.
+
+(* ---------------- set algebra ---------------- *)
+
+Lemma bs_diff_compl a s : bs_diff a (bs_compl s) = bs_inter a s.
+Proof. apply bs_ext. intros i. rewrite mem_diff, mem_compl, mem_inter, negb_involutive. reflexivity. Qed.
+
+Lemma bs_intersects_false a b : bs_intersects a b = false -> forall i, mem i a = true -> mem i b = false.
+Proof.
+  intros H i Ha. destruct (mem i b) eqn:Hb; [|reflexivity].
+  assert (bs_intersects a b = true) by (apply bs_intersects_spec; exists i; split; assumption). congruence.
+Qed.
+
+Lemma bs_diff_disjoint c a b : bs_subset c a = true -> bs_intersects a b = false -> bs_diff c b = c.
+Proof.
+  intros Hs Hi. apply bs_ext. intros i. rewrite mem_diff.
+  destruct (mem i c) eqn:Hc; [|reflexivity]. cbn [andb].
+  rewrite (bs_intersects_false a b Hi i); [reflexivity|].
+  rewrite bs_subset_spec in Hs. apply Hs. assumption.
+Qed.
+
+Lemma bs_subset_refl a : bs_subset a a = true.
+Proof. apply bs_subset_spec. auto. Qed.
+
+Lemma bs_inter_assoc a b c : bs_inter (bs_inter a b) c = bs_inter a (bs_inter b c).
+Proof. apply bs_ext. intros i. rewrite !mem_inter. symmetry. apply andb_assoc. Qed.
+
+Lemma bs_diff_diff a b c : bs_diff (bs_diff a b) c = bs_diff a (bs_union b c).
+Proof. apply bs_ext. intros i. rewrite !mem_diff, mem_union, negb_orb. symmetry. apply andb_assoc. Qed.
+
+Lemma opt_bset_eqb_eq a b : opt_bset_eqb a b = true -> a = b.
+Proof.
+  destruct a, b; cbn; intros H; try discriminate; [|reflexivity].
+  apply bs_eqb_spec in H. now subst.
+Qed.
+
+(* ---------------- one object: payload ---------------- *)
+
+(* the payload of an object whose complete sets contain its sets *)
+Definition sets_ok (d : dobj) : Prop :=
+  bs_subset (oset (o_cs d)) (oset (o_ccs d)) = true /\ bs_subset (oset (o_nds d)) (oset (o_cnds d)) = true.
+
+Definition osdiff (a : option bset) (b : option bset) : option bset :=
+  match b with Some s => odiff a s | None => a end.
+
+Lemma odiff_disjoint c a b :
+  bs_subset (oset c) (oset a) = true -> bs_intersects (oset a) b = false -> odiff c b = c.
+Proof.
+  intros Hs Hi. destruct c as [c|]; [|reflexivity]. cbn. f_equal. cbn in Hs.
+  eapply bs_diff_disjoint; eassumption.
+Qed.
+
+(* the guarded clearing of the C code clears unconditionally as soon as set ⊆ complete set *)
+Lemma clear_sets_spec P d : sets_ok d ->
+  let d' := fst (clear_sets P d) in
+  o_cs d' = osdiff (o_cs d) (rp_dcs P) /\ o_ccs d' = osdiff (o_ccs d) (rp_dcs P) /\
+  o_nds d' = osdiff (o_nds d) (rp_dns P) /\ o_cnds d' = osdiff (o_cnds d) (rp_dns P).
+Proof.
+  intros [Hc Hn]. unfold clear_sets. cbn [fst set_sets o_cs o_ccs o_nds o_cnds].
+  destruct (rp_dcs P) as [dc|], (rp_dns P) as [dn|]; cbn [osdiff];
+  repeat split; try reflexivity;
+  try (destruct (bs_intersects (oset (o_ccs d)) dc) eqn:E; [reflexivity|
+       symmetry; first [eapply odiff_disjoint; [exact Hc|exact E] | eapply odiff_disjoint; [apply bs_subset_refl|exact E]]]);
+  try (destruct (bs_intersects (oset (o_cnds d)) dn) eqn:E; [reflexivity|
+       symmetry; first [eapply odiff_disjoint; [exact Hn|exact E] | eapply odiff_disjoint; [apply bs_subset_refl|exact E]]]).
+Qed.
+
+(* nothing but the four sets changes *)
+Lemma clear_sets_identity P d :
+  let d' := fst (clear_sets P d) in
+  o_id d' = o_id d /\ o_gp d' = o_gp d /\ o_type d' = o_type d /\ o_os d' = o_os d /\ o_lm d' = o_lm d /\
+  o_cache_depth d' = o_cache_depth d /\ o_cache_type d' = o_cache_type d /\
+  o_group_depth d' = o_group_depth d /\ o_group_kind d' = o_group_kind d /\ o_group_subkind d' = o_group_subkind d /\
+  o_pci_class d' = o_pci_class d /\ o_os_types d' = o_os_types d.
+Proof. cbn. repeat split. Qed.
+
+(* ---------------- one object: unfolding of the recursion ---------------- *)
+
+Section RList.
+  Variable P : rparams.
+  Fixpoint rlist (l : list obj) : list obj * list obj * list obj :=
+    match l with
+    | [] => ([], [], [])
+    | c :: tl =>
+        let r := robj P c in
+        let rs := rlist tl in
+        (match fst (fst r) with Some c' => c' :: fst (fst rs) | None => fst (fst rs) end,
+         snd (fst r) ++ snd (fst rs), snd r ++ snd rs)
+    end.
+End RList.
+
+Definition kept_children (P : rparams) (d : dobj) (n : list obj) : list obj * list obj * list obj :=
+  if snd (clear_sets P d) then rlist P n else (n, [], []).
+
+Definition robj_body (P : rparams) (d : dobj) (n m i x : list obj) : rres :=
+  let d1 := fst (clear_sets P d) in
+  let modified := snd (clear_sets P d) in
+  let kn := kept_children P d n in
+  let n1 := if modified && (negb (rp_bynode P) || rp_rm P) then reorder_children (fst (fst kn)) else fst (fst kn) in
+  let km := kept_children P d m in
+  let m1 := fst (fst km) in
+  let i1 := i ++ snd (fst kn) ++ snd (fst km) in
+  let x1 := x ++ snd kn ++ snd km in
+  match n1, m1 with
+  | [], [] =>
+      if removal_test P d1
+      then (None, if rp_io P then i1 else [], if rp_misc P then x1 else [])
+      else (Some (Obj d1 n1 m1 i1 x1), [], [])
+  | _, _ => (Some (Obj d1 n1 m1 i1 x1), [], [])
+  end.
+
+Lemma robj_eq P d n m i x : robj P (Obj d n m i x) = robj_body P d n m i x.
+Proof. reflexivity. Qed.
+
+(* the payload of a kept object is the cleared payload of the old one *)
+Lemma robj_kept_data P o o' io mx : robj P o = (Some o', io, mx) -> odata o' = fst (clear_sets P (odata o)).
+Proof.
+  destruct o as [d n m i x]. rewrite robj_eq. unfold robj_body. cbn zeta.
+  destruct (if snd (clear_sets P d) && (negb (rp_bynode P) || rp_rm P) then _ else _);
+  destruct (fst (fst (kept_children P d m))); try destruct (removal_test P _);
+  intros H; inversion H; reflexivity.
+Qed.
+
+(* removal rule for one object, both flavours: it goes iff no normal and no memory child is
+   left, its (cleared) cpuset resp. nodeset is empty and it is not a NUMA node resp. PU
+   unless REMOVE_CPULESS resp. REMOVE_MEMLESS is given *)
+Lemma robj_removed_iff P d n m i x :
+  fst (fst (robj P (Obj d n m i x))) = None <->
+  (let kn := kept_children P d n in
+   let n1 := if snd (clear_sets P d) && (negb (rp_bynode P) || rp_rm P) then reorder_children (fst (fst kn)) else fst (fst kn) in
+   n1 = [] /\ fst (fst (kept_children P d m)) = [] /\ removal_test P (fst (clear_sets P d)) = true).
+Proof.
+  rewrite robj_eq. unfold robj_body. cbn zeta.
+  destruct (if snd (clear_sets P d) && (negb (rp_bynode P) || rp_rm P) then _ else _) as [|a l];
+  destruct (fst (fst (kept_children P d m))) as [|b l'];
+  try destruct (removal_test P _) eqn:E; cbn; split; intros H; try discriminate; try reflexivity; auto;
+  try (destruct H as [H1 [H2 H3]]; discriminate).
+Qed.
+
+(* Misc and I/O children: a kept object hands nothing up and keeps all its own special
+   children; a removed object hands up exactly its (augmented) lists when the ADAPT flag
+   is given and nothing otherwise *)
+Lemma robj_special_kept P o o' io mx :
+  robj P o = (Some o', io, mx) ->
+  io = [] /\ mx = [] /\ incl (oich o) (oich o') /\ incl (oxch o) (oxch o').
+Proof.
+  destruct o as [d n m i x]. rewrite robj_eq. unfold robj_body. cbn zeta.
+  destruct (if snd (clear_sets P d) && (negb (rp_bynode P) || rp_rm P) then _ else _);
+  destruct (fst (fst (kept_children P d m))); try destruct (removal_test P _);
+  intros H; inversion H; subst; cbn; repeat split; try reflexivity; apply incl_appl; apply incl_refl.
+Qed.
+
+Lemma robj_special_removed P o io mx :
+  robj P o = (None, io, mx) ->
+  (rp_io P = false -> io = []) /\ (rp_misc P = false -> mx = []) /\
+  (rp_io P = true -> incl (oich o) io) /\ (rp_misc P = true -> incl (oxch o) mx).
+Proof.
+  destruct o as [d n m i x]. rewrite robj_eq. unfold robj_body. cbn zeta.
+  destruct (if snd (clear_sets P d) && (negb (rp_bynode P) || rp_rm P) then _ else _);
+  destruct (fst (fst (kept_children P d m))); try destruct (removal_test P _);
+  intros H; inversion H; subst; cbn;
+  repeat split; intros E; rewrite E; try reflexivity; apply incl_appl; apply incl_refl.
+Qed.
+
+(* ---------------- the whole call ---------------- *)
+
+(* EINVAL exactly in the cases the C code lists *)
+Lemma restrict_params_none_iff t S flags :
+  restrict_params t S flags = None <->
+  (flags_valid flags = false \/
+   (hasf flags HWLOC_RESTRICT_FLAG_BYNODESET = true /\
+    (bs_intersects S (tp_anode t) = false \/
+     (hasf flags HWLOC_RESTRICT_FLAG_REMOVE_MEMLESS = true /\ bs_subset (tp_acpu t) (memless_pus (tp_root t) (bs_compl S)) = true))) \/
+   (hasf flags HWLOC_RESTRICT_FLAG_BYNODESET = false /\
+    (bs_intersects S (tp_acpu t) = false \/
+     (hasf flags HWLOC_RESTRICT_FLAG_REMOVE_CPULESS = true /\ bs_subset (tp_anode t) (cpuless_nodes (tp_root t) (bs_compl S)) = true)))).
+Proof.
+  unfold restrict_params.
+  destruct (flags_valid flags) eqn:Ev; cbn [negb]; [|split; auto].
+  destruct (hasf flags HWLOC_RESTRICT_FLAG_BYNODESET) eqn:Eb.
+  - destruct (bs_intersects S (tp_anode t)) eqn:Ei; cbn [negb]; [|split; auto 6].
+    destruct (hasf flags HWLOC_RESTRICT_FLAG_REMOVE_MEMLESS) eqn:Em; cbn [andb].
+    + destruct (bs_subset (tp_acpu t) (memless_pus (tp_root t) (bs_compl S))) eqn:Es.
+      * split; auto 8.
+      * split; [discriminate|]. intros [H|[[_ [H|[_ H]]]|[H _]]]; discriminate.
+    + split; [discriminate|]. intros [H|[[_ [H|[H _]]]|[H _]]]; discriminate.
+  - destruct (bs_intersects S (tp_acpu t)) eqn:Ei; cbn [negb]; [|split; auto 6].
+    destruct (hasf flags HWLOC_RESTRICT_FLAG_REMOVE_CPULESS) eqn:Em; cbn [andb].
+    + destruct (bs_subset (tp_anode t) (cpuless_nodes (tp_root t) (bs_compl S))) eqn:Es.
+      * split; auto 8.
+      * split; [discriminate|]. intros [H|[[H _]|[_ [H|[_ H]]]]]; discriminate.
+    + split; [discriminate|]. intros [H|[[H _]|[_ [H|[H _]]]]]; discriminate.
+Qed.
+
+Lemma restrict_prune_einval_iff t S flags :
+  restrict_prune t S flags = Einval <-> restrict_params t S flags = None.
+Proof.
+  unfold restrict_prune. destruct (restrict_params t S flags) as [P|]; [|tauto].
+  destruct (fst (fst (robj P (tp_root t)))); split; discriminate.
+Qed.
+
+Lemma restrict_topo_einval_iff filters dm t S flags :
+  restrict_topo filters dm t S flags = Einval <-> restrict_params t S flags = None.
+Proof.
+  rewrite <- restrict_prune_einval_iff. unfold restrict_topo.
+  destruct (restrict_prune t S flags) as [| |t1]; try tauto; try (split; discriminate).
+  destruct (keep_structure filters dm (tp_root t1)); split; discriminate.
+Qed.
+
+(* the dropped sets handed to the recursion *)
+Lemma restrict_params_bycpu t S flags P :
+  restrict_params t S flags = Some P -> hasf flags HWLOC_RESTRICT_FLAG_BYNODESET = false ->
+  rp_bynode P = false /\ rp_dcs P = Some (bs_compl S) /\
+  rp_io P = hasf flags HWLOC_RESTRICT_FLAG_ADAPT_IO /\ rp_misc P = hasf flags HWLOC_RESTRICT_FLAG_ADAPT_MISC /\
+  rp_rm P = hasf flags HWLOC_RESTRICT_FLAG_REMOVE_CPULESS /\
+  (rp_dns P = None \/ rp_dns P = Some (cpuless_nodes (tp_root t) (bs_compl S))) /\
+  (hasf flags HWLOC_RESTRICT_FLAG_REMOVE_CPULESS = false -> rp_dns P = None).
+Proof.
+  unfold restrict_params. intros H Hb. rewrite Hb in H.
+  destruct (negb (flags_valid flags)); [discriminate|].
+  destruct (negb (bs_intersects S (tp_acpu t))); [discriminate|].
+  destruct (hasf flags HWLOC_RESTRICT_FLAG_REMOVE_CPULESS && _); [discriminate|].
+  inversion H; subst; clear H. cbn.
+  destruct (hasf flags HWLOC_RESTRICT_FLAG_REMOVE_CPULESS); cbn; repeat split; auto.
+  - destruct (bs_is_empty _); auto.
+  - discriminate.
+Qed.
+
+Lemma restrict_params_bynode t S flags P :
+  restrict_params t S flags = Some P -> hasf flags HWLOC_RESTRICT_FLAG_BYNODESET = true ->
+  rp_bynode P = true /\ rp_dns P = Some (bs_compl S) /\
+  rp_io P = hasf flags HWLOC_RESTRICT_FLAG_ADAPT_IO /\ rp_misc P = hasf flags HWLOC_RESTRICT_FLAG_ADAPT_MISC /\
+  rp_rm P = hasf flags HWLOC_RESTRICT_FLAG_REMOVE_MEMLESS /\
+  (rp_dcs P = None \/ rp_dcs P = Some (memless_pus (tp_root t) (bs_compl S))) /\
+  (hasf flags HWLOC_RESTRICT_FLAG_REMOVE_MEMLESS = false -> rp_dcs P = None).
+Proof.
+  unfold restrict_params. intros H Hb. rewrite Hb in H.
+  destruct (negb (flags_valid flags)); [discriminate|].
+  destruct (negb (bs_intersects S (tp_anode t))); [discriminate|].
+  destruct (hasf flags HWLOC_RESTRICT_FLAG_REMOVE_MEMLESS && _); [discriminate|].
+  inversion H; subst; clear H. cbn.
+  destruct (hasf flags HWLOC_RESTRICT_FLAG_REMOVE_MEMLESS); cbn; repeat split; auto.
+  - destruct (bs_is_empty _); auto.
+  - discriminate.
+Qed.
+
+Lemma restrict_prune_done t S flags t' :
+  restrict_prune t S flags = Done t' ->
+  exists P io mx, restrict_params t S flags = Some P /\ robj P (tp_root t) = (Some (tp_root t'), io, mx) /\
+                  tp_acpu t' = sdiff (tp_acpu t) (rp_dcs P) /\ tp_anode t' = sdiff (tp_anode t) (rp_dns P).
+Proof.
+  unfold restrict_prune. destruct (restrict_params t S flags) as [P|]; [|discriminate].
+  destruct (robj P (tp_root t)) as [[r io] mx] eqn:E. cbn [fst].
+  destruct r as [r|]; [|discriminate]. intros H. inversion H; subst. cbn.
+  exists P, io, mx. auto.
+Qed.
+
+Definition ointer (a : option bset) (s : bset) : option bset := option_map (fun x => bs_inter x s) a.
+
+Lemma odiff_compl a s : odiff a (bs_compl s) = ointer a s.
+Proof. destruct a; cbn; [f_equal; apply bs_diff_compl|reflexivity]. Qed.
+
+(* root and allowed sets after a successful restrict by cpuset: old ∩ S *)
+Lemma prune_root_sets_bycpu t S flags t' :
+  restrict_prune t S flags = Done t' -> hasf flags HWLOC_RESTRICT_FLAG_BYNODESET = false ->
+  sets_ok (odata (tp_root t)) ->
+  o_cs (odata (tp_root t')) = ointer (o_cs (odata (tp_root t))) S /\
+  o_ccs (odata (tp_root t')) = ointer (o_ccs (odata (tp_root t))) S /\
+  tp_acpu t' = bs_inter (tp_acpu t) S /\
+  o_gp (odata (tp_root t')) = o_gp (odata (tp_root t)) /\
+  (hasf flags HWLOC_RESTRICT_FLAG_REMOVE_CPULESS = false ->
+   o_nds (odata (tp_root t')) = o_nds (odata (tp_root t)) /\ o_cnds (odata (tp_root t')) = o_cnds (odata (tp_root t)) /\
+   tp_anode t' = tp_anode t).
+Proof.
+  intros H Hb Hok. apply restrict_prune_done in H as (P & io & mx & HP & Hr & Ha & Hn).
+  destruct (restrict_params_bycpu _ _ _ _ HP Hb) as (_ & Hdc & _ & _ & _ & _ & Hnone).
+  pose proof (robj_kept_data _ _ _ _ _ Hr) as Hd.
+  destruct (clear_sets_spec P _ Hok) as (H1 & H2 & H3 & H4).
+  rewrite <- Hd in H1, H2, H3, H4. rewrite Hdc in H1, H2. cbn [osdiff] in H1, H2.
+  rewrite odiff_compl in H1, H2.
+  repeat split; try assumption.
+  - rewrite Ha, Hdc. cbn. apply bs_diff_compl.
+  - rewrite Hd. reflexivity.
+  - rewrite H3, (Hnone H). reflexivity.
+  - rewrite H4, (Hnone H). reflexivity.
+  - rewrite Hn, (Hnone H). reflexivity.
+Qed.
+
+(* by nodeset: nodesets are old ∩ S *)
+Lemma prune_root_sets_bynode t S flags t' :
+  restrict_prune t S flags = Done t' -> hasf flags HWLOC_RESTRICT_FLAG_BYNODESET = true ->
+  sets_ok (odata (tp_root t)) ->
+  o_nds (odata (tp_root t')) = ointer (o_nds (odata (tp_root t))) S /\
+  o_cnds (odata (tp_root t')) = ointer (o_cnds (odata (tp_root t))) S /\
+  tp_anode t' = bs_inter (tp_anode t) S /\
+  o_gp (odata (tp_root t')) = o_gp (odata (tp_root t)) /\
+  (hasf flags HWLOC_RESTRICT_FLAG_REMOVE_MEMLESS = false ->
+   o_cs (odata (tp_root t')) = o_cs (odata (tp_root t)) /\ o_ccs (odata (tp_root t')) = o_ccs (odata (tp_root t)) /\
+   tp_acpu t' = tp_acpu t).
+Proof.
+  intros H Hb Hok. apply restrict_prune_done in H as (P & io & mx & HP & Hr & Ha & Hn).
+  destruct (restrict_params_bynode _ _ _ _ HP Hb) as (_ & Hdn & _ & _ & _ & _ & Hnone).
+  pose proof (robj_kept_data _ _ _ _ _ Hr) as Hd.
+  destruct (clear_sets_spec P _ Hok) as (H1 & H2 & H3 & H4).
+  rewrite <- Hd in H1, H2, H3, H4. rewrite Hdn in H3, H4. cbn [osdiff] in H3, H4.
+  rewrite odiff_compl in H3, H4.
+  repeat split; try assumption.
+  - rewrite Hn, Hdn. cbn. apply bs_diff_compl.
+  - rewrite Hd. reflexivity.
+  - rewrite H1, (Hnone H). reflexivity.
+  - rewrite H2, (Hnone H). reflexivity.
+  - rewrite Ha, (Hnone H). reflexivity.
+Qed.
+
+Lemma oset_odiff x c : oset (odiff x c) = bs_diff (oset x) c.
+Proof.
+  destruct x as [s|]; [reflexivity|]. change (bs_empty = bs_diff bs_empty c).
+  apply bs_ext. intros i. rewrite mem_diff, mem_empty. reflexivity.
+Qed.
+Lemma bs_subset_diff_mono a b c : bs_subset a b = true -> bs_subset (bs_diff a c) (bs_diff b c) = true.
+Proof.
+  rewrite !bs_subset_spec. intros H i. rewrite !mem_diff. intros Hi.
+  apply andb_true_iff in Hi as [Ha Hc]. rewrite (H i Ha), Hc. reflexivity.
+Qed.
+
+(* sets_ok is preserved by clearing, so that restrictions can be chained *)
+Lemma sets_ok_clear P d : sets_ok d -> sets_ok (fst (clear_sets P d)).
+Proof.
+  intros Hok. destruct (clear_sets_spec P d Hok) as (H1 & H2 & H3 & H4). destruct Hok as [Hc Hn].
+  unfold sets_ok. rewrite H1, H2, H3, H4. split.
+  - destruct (rp_dcs P) as [dc|]; cbn [osdiff]; [|exact Hc].
+    rewrite !oset_odiff. apply bs_subset_diff_mono. exact Hc.
+  - destruct (rp_dns P) as [dc|]; cbn [osdiff]; [|exact Hn].
+    rewrite !oset_odiff. apply bs_subset_diff_mono. exact Hn.
+Qed.
+
+Lemma prune_root_sets_ok t S flags t' :
+  restrict_prune t S flags = Done t' -> sets_ok (odata (tp_root t)) -> sets_ok (odata (tp_root t')).
+Proof.
+  intros H Hok. apply restrict_prune_done in H as (P & io & mx & _ & Hr & _ & _).
+  rewrite (robj_kept_data _ _ _ _ _ Hr). apply sets_ok_clear. exact Hok.
+Qed.
+
+Lemma ointer_ointer a s s' : ointer (ointer a s) s' = ointer a (bs_inter s s').
+Proof. destruct a; cbn; [f_equal; apply bs_inter_assoc|reflexivity]. Qed.
+
+(* restricting by S and then by S' gives, on the root and allowed cpusets, what restricting by S ∩ S' gives *)
+Lemma prune_twice_bycpu t S S' fl fl' t1 t2 t12 :
+  hasf fl HWLOC_RESTRICT_FLAG_BYNODESET = false -> hasf fl' HWLOC_RESTRICT_FLAG_BYNODESET = false ->
+  sets_ok (odata (tp_root t)) ->
+  restrict_prune t S fl = Done t1 -> restrict_prune t1 S' fl' = Done t2 ->
+  restrict_prune t (bs_inter S S') fl = Done t12 ->
+  o_cs (odata (tp_root t2)) = o_cs (odata (tp_root t12)) /\
+  o_ccs (odata (tp_root t2)) = o_ccs (odata (tp_root t12)) /\
+  tp_acpu t2 = tp_acpu t12.
+Proof.
+  intros Hb Hb' Hok H1 H2 H12.
+  pose proof (prune_root_sets_ok _ _ _ _ H1 Hok) as Hok1.
+  destruct (prune_root_sets_bycpu _ _ _ _ H1 Hb Hok) as (A1 & A2 & A3 & _).
+  destruct (prune_root_sets_bycpu _ _ _ _ H2 Hb' Hok1) as (B1 & B2 & B3 & _).
+  destruct (prune_root_sets_bycpu _ _ _ _ H12 Hb Hok) as (C1 & C2 & C3 & _).
+  rewrite B1, B2, B3, A1, A2, A3, C1, C2, C3, !ointer_ointer, bs_inter_assoc. auto.
+Qed.
+
+(* ---------------- soundness of the executable statement (set clauses) ---------------- *)
+
+Lemma sets_restricted_sound before S flags o o' :
+  sets_restricted before S flags o o' = true ->
+  let dd := spec_dropped before S flags in
+  o_cs o' = odiff (o_cs o) (fst dd) /\ o_ccs o' = odiff (o_ccs o) (fst dd) /\
+  o_nds o' = odiff (o_nds o) (snd dd) /\ o_cnds o' = odiff (o_cnds o) (snd dd).
+Proof.
+  unfold sets_restricted. intros H.
+  apply andb_true_iff in H as [H H4]. apply andb_true_iff in H as [H H3]. apply andb_true_iff in H as [H1 H2].
+  cbn zeta. repeat split; apply opt_bset_eqb_eq; assumption.
+Qed.
+
+Lemma chk_nil b name who : chk b name who = [] -> b = true.
+Proof. unfold chk. destruct b; [reflexivity|discriminate]. Qed.
+
+(* a clean verdict of the checker on a surviving old object gives the Prop reading of the set clause *)
+Lemma check_old_obj_sets_sound before after S flags o o' :
+  check_old_obj before after S flags o = [] -> find_gp after (gpN o) = Some o' ->
+  let dd := spec_dropped before S flags in
+  o_type o' = o_type o /\ o_os o' = o_os o /\
+  o_cs o' = odiff (o_cs o) (fst dd) /\ o_ccs o' = odiff (o_ccs o) (fst dd) /\
+  o_nds o' = odiff (o_nds o) (snd dd) /\ o_cnds o' = odiff (o_cnds o) (snd dd).
+Proof.
+  unfold check_old_obj. intros H Hf. rewrite Hf in H.
+  apply app_eq_nil in H as [_ H]. apply app_eq_nil in H as [Hi H]. apply app_eq_nil in H as [Hs _].
+  apply chk_nil in Hi. apply chk_nil in Hs.
+  apply sets_restricted_sound in Hs. cbn zeta in *. destruct Hs as (A & B & C & D).
+  unfold same_identity in Hi. repeat (apply andb_true_iff in Hi as [Hi ?]).
+  apply N.eqb_eq in Hi. repeat split; try assumption; symmetry; try assumption.
+  match goal with [ E : (o_os o =? o_os o') = true |- _ ] => apply N.eqb_eq in E; exact E end.
+Qed.
+
+(* root clause by cpuset *)
+Lemma check_topology_level_sound_bycpu before after S flags r r' :
+  check_topology_level before after S flags = [] -> hasf flags HWLOC_RESTRICT_FLAG_BYNODESET = false ->
+  get before 0 = Some r -> get after 0 = Some r' ->
+  o_cs r' = ointer (o_cs r) S /\ o_ccs r' = ointer (o_ccs r) S /\ t_acpu after = ointer (t_acpu before) S.
+Proof.
+  unfold check_topology_level. intros H Hb Hr Hr'. rewrite Hr, Hr', Hb in H.
+  apply app_eq_nil in H as [H _]. apply app_eq_nil in H as [_ H].
+  apply app_eq_nil in H as [H1 H]. apply app_eq_nil in H as [H2 H]. apply app_eq_nil in H as [H3 _].
+  apply chk_nil in H1. apply chk_nil in H2. apply chk_nil in H3.
+  repeat split; apply opt_bset_eqb_eq; assumption.
+Qed.
+
+(* ---------------- whole tree: every object of the result is an old object ---------------- *)
+
+Section ObjInd.
+  Variable Q : obj -> Prop.
+  Hypothesis HQ : forall d n m i x, Forall Q n -> Forall Q m -> Forall Q i -> Forall Q x -> Q (Obj d n m i x).
+  Fixpoint obj_ind2 (o : obj) : Q o :=
+    match o with
+    | Obj d n m i x =>
+        let go := fix go (l : list obj) : Forall Q l :=
+          match l with [] => Forall_nil Q | c :: tl => Forall_cons c (obj_ind2 c) (go tl) end in
+        HQ d n m i x (go n) (go m) (go i) (go x)
+    end.
+End ObjInd.
+
+Definition flats (l : list obj) : list obj := flat_map flatten l.
+
+Lemma flatten_eq d n m i x : flatten (Obj d n m i x) = Obj d n m i x :: flats n ++ flats m ++ flats i ++ flats x.
+Proof. reflexivity. Qed.
+
+Lemma in_flats q l : In q (flats l) <-> exists c, In c l /\ In q (flatten c).
+Proof. unfold flats. rewrite in_flat_map. tauto. Qed.
+
+Lemma in_flats_self c l : In c l -> In c (flats l).
+Proof. intros H. apply in_flats. exists c. split; [assumption|]. destruct c. rewrite flatten_eq. left. reflexivity. Qed.
+
+Lemma in_insert_child q c l : In q (insert_child c l) <-> q = c \/ In q l.
+Proof.
+  induction l as [|e tl IH]; cbn.
+  - split; [intros [H|[]]; auto|intros [H|[]]; auto].
+  - destruct (obj_first_gt c e); cbn; [rewrite IH|]; split; intros H; intuition auto.
+Qed.
+
+Lemma in_reorder q l : In q (reorder_children l) <-> In q l.
+Proof.
+  unfold reorder_children.
+  assert (G : forall l acc, In q (fold_left (fun acc c => insert_child c acc) l acc) <-> In q acc \/ In q l).
+  { clear l. induction l as [|c tl IH]; intros acc; cbn; [tauto|]. rewrite IH, in_insert_child. intuition auto. }
+  rewrite G. cbn. tauto.
+Qed.
+
+Lemma in_flats_reorder q l : In q (flats (reorder_children l)) <-> In q (flats l).
+Proof. rewrite !in_flats. split; intros [c [H1 H2]]; exists c; split; auto; apply in_reorder; assumption. Qed.
+
+(* an object of the result: same payload as an old object, its sets either untouched or cleared *)
+Definition from_old (P : rparams) (old : list obj) (q : obj) : Prop :=
+  exists q0, In q0 old /\ (odata q = odata q0 \/ odata q = fst (clear_sets P (odata q0))).
+
+Lemma from_old_incl P a b q : incl a b -> from_old P a q -> from_old P b q.
+Proof. intros H [q0 [H1 H2]]. exists q0. split; auto. Qed.
+
+Definition result_objs (r : rres) : list obj :=
+  (match fst (fst r) with Some o' => flatten o' | None => [] end) ++ flats (snd (fst r)) ++ flats (snd r).
+
+Definition survivors_ok (P : rparams) (o : obj) : Prop :=
+  forall q, In q (result_objs (robj P o)) -> from_old P (flatten o) q.
+
+Lemma rlist_survivors P l : Forall (survivors_ok P) l ->
+  forall q, In q (flats (fst (fst (rlist P l))) ++ flats (snd (fst (rlist P l))) ++ flats (snd (rlist P l))) -> from_old P (flats l) q.
+Proof.
+  induction 1 as [|c tl Hc Htl IH]; intros q Hq.
+  - cbn in Hq. contradiction.
+  - cbn [rlist] in Hq. cbn zeta in Hq. cbn [fst snd] in Hq.
+    assert (Hsplit : In q (result_objs (robj P c)) \/
+                     In q (flats (fst (fst (rlist P tl))) ++ flats (snd (fst (rlist P tl))) ++ flats (snd (rlist P tl)))).
+    { unfold result_objs, flats in *. rewrite !flat_map_app in Hq. rewrite !in_app_iff in *.
+      destruct (fst (fst (robj P c))) as [c'|]; cbn [flat_map] in Hq; rewrite ?in_app_iff in Hq; intuition auto. }
+    destruct Hsplit as [H|H].
+    + apply Hc in H. eapply from_old_incl; [|exact H]. unfold flats. cbn [flat_map]. apply incl_appl, incl_refl.
+    + apply IH in H. eapply from_old_incl; [|exact H]. unfold flats. cbn [flat_map]. apply incl_appr, incl_refl.
+Qed.
+
+Lemma from_old_self P l q : In q l -> from_old P l q.
+Proof. intros H. exists q. auto. Qed.
+
+Lemma kept_children_survivors P d l : Forall (survivors_ok P) l ->
+  forall q, In q (flats (fst (fst (kept_children P d l))) ++ flats (snd (fst (kept_children P d l))) ++ flats (snd (kept_children P d l))) ->
+            from_old P (flats l) q.
+Proof.
+  intros Hl q. unfold kept_children. destruct (snd (clear_sets P d)).
+  - apply rlist_survivors. exact Hl.
+  - cbn. rewrite app_nil_r. apply from_old_self.
+Qed.
+
+Theorem robj_survivors P o : survivors_ok P o.
+Proof.
+  induction o as [d n m i x Hn Hm Hi Hx] using obj_ind2.
+  unfold survivors_ok. intros q Hq. rewrite robj_eq in Hq. unfold robj_body in Hq. cbn zeta in Hq.
+  pose proof (kept_children_survivors P d n Hn) as Kn. pose proof (kept_children_survivors P d m Hm) as Km.
+  set (kn := kept_children P d n) in *. set (km := kept_children P d m) in *.
+  set (n1 := if snd (clear_sets P d) && (negb (rp_bynode P) || rp_rm P) then reorder_children (fst (fst kn)) else fst (fst kn)) in *.
+  assert (Hn1 : forall q, In q (flats n1) <-> In q (flats (fst (fst kn)))).
+  { intros q'. unfold n1. destruct (snd (clear_sets P d) && _); [apply in_flats_reorder|tauto]. }
+  (* every object of the candidate result (kept or handed up) comes from the old subtree *)
+  assert (Hall : forall q, In q (Obj (fst (clear_sets P d)) n1 (fst (fst km)) (i ++ snd (fst kn) ++ snd (fst km)) (x ++ snd kn ++ snd km)
+                                 :: flats n1 ++ flats (fst (fst km)) ++ flats (i ++ snd (fst kn) ++ snd (fst km)) ++ flats (x ++ snd kn ++ snd km)) ->
+                            from_old P (flatten (Obj d n m i x)) q).
+  { intros q' [Hq'|Hq'].
+    - exists (Obj d n m i x). split; [rewrite flatten_eq; left; reflexivity|]. right. subst q'. reflexivity.
+    - rewrite flatten_eq. unfold flats in Hq'. rewrite !flat_map_app in Hq'. fold flats in Hq'. rewrite !in_app_iff in Hq'.
+      assert (A : In q' (flats (fst (fst kn)) ++ flats (snd (fst kn)) ++ flats (snd kn)) \/
+                  In q' (flats (fst (fst km)) ++ flats (snd (fst km)) ++ flats (snd km)) \/ In q' (flats i) \/ In q' (flats x)).
+      { rewrite !in_app_iff. rewrite Hn1 in Hq'. intuition auto. }
+      destruct A as [A|[A|[A|A]]].
+      + eapply from_old_incl; [|exact (Kn _ A)]. apply incl_tl, incl_appl, incl_refl.
+      + eapply from_old_incl; [|exact (Km _ A)]. apply incl_tl, incl_appr, incl_appl, incl_refl.
+      + apply from_old_self. right. rewrite !in_app_iff. auto.
+      + apply from_old_self. right. rewrite !in_app_iff. auto. }
+  unfold result_objs in Hq.
+  destruct n1 as [|a l]; destruct (fst (fst km)) as [|b l'];
+  try destruct (removal_test P (fst (clear_sets P d)));
+  cbn [fst snd] in Hq; rewrite ?flatten_eq in Hq; cbn [flats flat_map app] in Hq; rewrite ?app_nil_r in Hq;
+  try (apply Hall; exact Hq).
+  (* removed: only the lists handed up *)
+  apply Hall. right. cbn [flats flat_map app].
+  destruct (rp_io P), (rp_misc P); cbn [flats flat_map app] in Hq; rewrite ?app_nil_r in Hq;
+  try (cbn in Hq; contradiction);
+  rewrite ?in_app_iff in *; intuition auto.
+Qed.
+
+Corollary prune_survivors t S flags t' :
+  restrict_prune t S flags = Done t' ->
+  exists P, restrict_params t S flags = Some P /\
+            forall q, In q (flatten (tp_root t')) -> from_old P (flatten (tp_root t)) q.
+Proof.
+  intros H. apply restrict_prune_done in H as (P & io & mx & HP & Hr & _ & _).
+  exists P. split; [assumption|]. intros q Hq. apply (robj_survivors P (tp_root t)).
+  unfold result_objs. rewrite Hr. cbn [fst snd]. apply in_or_app. left. exact Hq.
+Qed.
+
+(* ---------------- "observably unchanged": dump_eqb decides equality ---------------- *)
+
+Lemma ptr_eqb'_eq a b : ptr_eqb' a b = true -> a = b.
+Proof. destruct a, b; cbn; intros H; try discriminate; try reflexivity. apply N.eqb_eq in H. now subst. Qed.
+
+Lemma list_eqb_eq {A} (eqb : A -> A -> bool) (Heq : forall x y, eqb x y = true -> x = y) a b :
+  list_eqb eqb a b = true -> a = b.
+Proof.
+  revert b. induction a as [|x a IH]; destruct b as [|y b]; cbn; intros H; try discriminate; [reflexivity|].
+  apply andb_true_iff in H as [H1 H2]. f_equal; auto.
+Qed.
+
+Lemma opt_eqb_eq {A} (eqb : A -> A -> bool) (Heq : forall x y, eqb x y = true -> x = y) a b :
+  opt_eqb eqb a b = true -> a = b.
+Proof. destruct a, b; cbn; intros H; try discriminate; [f_equal; auto|reflexivity]. Qed.
+
+Lemma bs_eqb_eq a b : bs_eqb a b = true -> a = b.
+Proof. apply bs_eqb_spec. Qed.
+Lemma N_eqb_eq' a b : N.eqb a b = true -> a = b.
+Proof. apply N.eqb_eq. Qed.
+Lemma Z_eqb_eq' a b : Z.eqb a b = true -> a = b.
+Proof. apply Z.eqb_eq. Qed.
+
+Ltac split_andb H :=
+  repeat match type of H with
+         | (_ && _) = true => let H2 := fresh "E" in apply andb_true_iff in H as [H H2]
+         end.
+
+Lemma dobj_eqb_eq a b : dobj_eqb a b = true -> a = b.
+Proof.
+  destruct a, b. unfold dobj_eqb. cbn.
+  intros H. split_andb H.
+  repeat match goal with
+  | [ E : N.eqb _ _ = true |- _ ] => apply N.eqb_eq in E
+  | [ E : Z.eqb _ _ = true |- _ ] => apply Z.eqb_eq in E
+  | [ E : ptr_eqb' _ _ = true |- _ ] => apply ptr_eqb'_eq in E
+  | [ E : opt_eqb N.eqb _ _ = true |- _ ] => apply (opt_eqb_eq _ N_eqb_eq') in E
+  | [ E : opt_eqb bs_eqb _ _ = true |- _ ] => apply (opt_eqb_eq _ bs_eqb_eq) in E
+  | [ E : list_eqb ptr_eqb' _ _ = true |- _ ] => apply (list_eqb_eq _ ptr_eqb'_eq) in E
+  | [ E : opt_eqb (list_eqb ptr_eqb') _ _ = true |- _ ] => apply (opt_eqb_eq _ (list_eqb_eq _ ptr_eqb'_eq)) in E
+  end.
+  subst. reflexivity.
+Qed.
+
+Ltac conv_eqs :=
+  repeat match goal with
+  | [ E : N.eqb _ _ = true |- _ ] => apply N.eqb_eq in E
+  | [ E : Z.eqb _ _ = true |- _ ] => apply Z.eqb_eq in E
+  | [ E : ptr_eqb' _ _ = true |- _ ] => apply ptr_eqb'_eq in E
+  | [ E : opt_eqb bs_eqb _ _ = true |- _ ] => apply (opt_eqb_eq _ bs_eqb_eq) in E
+  | [ E : list_eqb ptr_eqb' _ _ = true |- _ ] => apply (list_eqb_eq _ ptr_eqb'_eq) in E
+  | [ E : list_eqb N.eqb _ _ = true |- _ ] => apply (list_eqb_eq _ N_eqb_eq') in E
+  | [ E : list_eqb Z.eqb _ _ = true |- _ ] => apply (list_eqb_eq _ Z_eqb_eq') in E
+  end.
+
+Lemma level_eqb_eq a b : level_eqb a b = true -> a = b.
+Proof.
+  destruct a, b. unfold level_eqb. cbn. intros H. split_andb H. conv_eqs. subst. reflexivity.
+Qed.
+
+Theorem dump_eqb_eq a b : dump_eqb a b = true -> a = b.
+Proof.
+  destruct a, b. unfold dump_eqb. cbn. intros H. split_andb H. conv_eqs.
+  repeat match goal with
+  | [ E : list_eqb level_eqb _ _ = true |- _ ] => apply (list_eqb_eq _ level_eqb_eq) in E
+  | [ E : list_eqb dobj_eqb _ _ = true |- _ ] => apply (list_eqb_eq _ dobj_eqb_eq) in E
+  end.
+  subst. reflexivity.
+Qed.
+
+Corollary einval_identity_sound before after : einval_identity before after = [] -> before = after.
+Proof. unfold einval_identity. intros H. apply chk_nil in H. apply dump_eqb_eq. exact H. Qed.
